@@ -235,7 +235,8 @@ class SchedProp:
         for msg in self.oracle(case, impl):
             run.findings.append(Finding('oracle', msg, case_to_json(case)))
         if model:
-            blocks = run_model(case.header() + case.lines)[3:]
+            # `op!` (no loop iteration since the previous operation) is an ordinary operation of the model
+            blocks = run_model(case.header() + [('op ' + ln[4:]) if ln.startswith('op! ') else ln for ln in case.lines])[3:]
             mod = group_blocks(case.lines, blocks)
             d = first_diff(impl, mod, key=proj(self.pid))
             run.traces_validated += 1
@@ -246,6 +247,17 @@ class SchedProp:
                     f'scheduler model and code differ (projection {self.pid}) at group {d} {a.ops}: '
                     f'code {proj(self.pid)(a)} / model {proj(self.pid)(b)}',
                     {**case_to_json(case), 'broken': 'correspondence sched/' + self.pid, 'group': d}))
+
+    def crashed(self, run: Run, case: SchedCase, err: str) -> None:
+        """the real scheduler did not get through the history"""
+        run.stats['crashes'] = run.stats.get('crashes', 0) + 1
+        if err.startswith('Runaway') or 'does not return' in err:
+            # a failing input for every scheduler property: the operation does not complete and a job is executed over
+            # and over for one announced run time
+            run.findings.append(Finding('oracle', 'the real scheduler does not get through the history: ' + err, case_to_json(case)))
+        else:
+            run.findings.append(Finding('correspondence', f'adapter crashed on the real code: {err}',
+                                        {**case_to_json(case), 'broken': 'adapter'}))
 
     def run_T(self, run: Run) -> None:
         n = {'quick': 400, 'thorough': 16000}[run.tier]
@@ -259,7 +271,13 @@ class SchedProp:
         cdir = CORPUS / 'sched'
         if cdir.is_dir():
             for f in sorted(cdir.glob('*.json')):
-                self.check_case(run, case_from_json(json.loads(f.read_text())))
+                ccase = case_from_json(json.loads(f.read_text()))
+                try:
+                    self.check_case(run, ccase)
+                except KeyboardInterrupt:
+                    raise
+                except BaseException as e:  # noqa: BLE001
+                    self.crashed(run, ccase, f'{type(e).__name__}: {e}')
         kw = GEN_KW[self.pid]
         base = run.seed * 1_000_003 + int(self.pid[1:]) * 7919
         seeds = [base + i for i in range(n)]
@@ -268,8 +286,9 @@ class SchedProp:
                 for seed, groups, err in ex.map(_impl_worker, [(s, kw) for s in seeds], chunksize=50):
                     case = gen_sched_case(seed, **kw)
                     if err:
-                        run.findings.append(Finding('correspondence', f'adapter crashed on the real code: {err}',
-                                                    {**case_to_json(case), 'broken': 'adapter'}))
+                        self.crashed(run, case, err)
+                        if run.stats.get('crashes', 0) >= 6:
+                            break
                         continue
                     self.check_case(run, case, groups)
         else:
@@ -280,18 +299,27 @@ class SchedProp:
                 except BaseException as e:  # noqa: BLE001
                     if isinstance(e, KeyboardInterrupt):
                         raise
-                    run.findings.append(Finding('correspondence', f'adapter crashed on the real code: {type(e).__name__}: {e}',
-                                                {**case_to_json(case), 'broken': 'adapter'}))
+                    self.crashed(run, case, f'{type(e).__name__}: {e}')
+                    if run.stats.get('crashes', 0) >= 6:
+                        break           # every further case would spend its whole watchdog budget as well
                     continue
                 self.check_case(run, case, impl)
         # S: a broken correspondence without a failing input -> search harder on the real code alone
         if any(f.kind == 'correspondence' for f in run.findings) and not any(f.kind == 'oracle' for f in run.findings):
             extra = [base + 10_000_000 + i for i in range(n * 2)]
+            crashes = 0
             for seed in extra:
                 case = gen_sched_case(seed, **kw)
                 try:
                     self.check_case(run, case, model=False)
-                except BaseException:  # noqa: BLE001
+                except BaseException as e:  # noqa: BLE001
+                    if isinstance(e, KeyboardInterrupt):
+                        raise
+                    if type(e).__name__ == 'Runaway':
+                        self.crashed(run, case, f'Runaway: {e}')
+                    crashes += 1
+                    if crashes >= 4:
+                        break
                     continue
                 if any(f.kind == 'oracle' for f in run.findings):
                     break
@@ -315,9 +343,10 @@ class SchedProp:
                     return False
             chunk = max(1, len(lines) // 2)
             budget = 150
-            while chunk >= 1 and budget > 0:
+            t0 = time.time()
+            while chunk >= 1 and budget > 0 and time.time() - t0 < 120:
                 i = 0
-                while i < len(lines) and budget > 0:
+                while i < len(lines) and budget > 0 and time.time() - t0 < 120:
                     cand = lines[:i] + lines[i + chunk:]
                     budget -= 1
                     if cand and fails(cand):
@@ -333,4 +362,10 @@ class SchedProp:
             break
 
     def replay(self, run: Run, obj: dict) -> None:
-        self.check_case(run, case_from_json(obj))
+        case = case_from_json(obj)
+        try:
+            self.check_case(run, case)
+        except KeyboardInterrupt:
+            raise
+        except BaseException as e:  # noqa: BLE001
+            self.crashed(run, case, f'{type(e).__name__}: {e}')
